@@ -7,7 +7,9 @@ Mirrored Go code (internal/target/queue):
   `deliveryWg.Done` / panic containment with `discardBroken`), the retry scheduling at the end of
   `tryDelivery` (`wheel.Add(nextTryTime, …)`) or the terminal `removeFromDisk`, the early `return`
   when `openMessage` fails (`acquireBad`; what the spool looks like is an oracle: `Who.tickBad`),
-  `Queue.Close` (`wheel.Close(); deliveryWg.Wait()`).
+  `Queue.Close` (`wheel.Close(); deliveryWg.Wait()`); a panic inside the attempt itself (`Who.thrPanic`:
+  the delivery target or a modifier panics) unwinds into the same deferred function: semaphore
+  release, `deliveryWg.Done`, `recover()` → `discardBroken` (`panicRelease`, `discard`).
 
 Every synchronisation operation of those functions is one step of one goroutine:
 atomic load/store of `stopped`, `slotsLock.Lock` (may block), the critical section up to and
@@ -117,12 +119,14 @@ structure St where
   dispatched : List (Slot × Nat)   -- dispatch callbacks (entry, clock), in order
   broken : List Nat                -- messages whose .meta was renamed to .meta_broken
   removed : List Nat               -- messages removed from the spool (terminal outcome reached)
+  tpanic : List Nat                -- messages one of whose attempts panicked inside the delivery (target / modifier bug)
 deriving DecidableEq, Repr
 
 /-- Scheduler choices.  `thr i c`: goroutine `i` takes its next step (`c` matters only at `deliver`:
 `0` = terminal outcome, `d+1` = temporary failure, retry after `d`).  `tickTimer`, `tickUpd i`,
 `tickStop`: the `select` alternative the tick goroutine takes (`tickUpd i` is the rendezvous with
-goroutine `i` blocked in `Add`'s send, `tickStop` the one with `Close`).  `clock d`: time passes.  `tickBad`: like `tick` at the hand-over
+goroutine `i` blocked in `Add`'s send, `tickStop` the one with `Close`).  `clock d`: time passes.  `thrPanic i`: the delivery
+attempt of goroutine `i` panics (stage and panic value matter to the harness only).  `tickBad`: like `tick` at the hand-over
 of an entry to `Queue.dispatch`, with the oracle answer "`openMessage` of this message fails". -/
 inductive Who
   | thr (i : Nat) (choice : Nat)
@@ -130,6 +134,8 @@ inductive Who
   | tick
   | tickBad      -- the tick goroutine's `dispatch` step of an entry whose message is not in memory,
                  -- in an environment where the spool entry cannot be opened until the attempt tried
+  | thrPanic (i : Nat)   -- goroutine `i`, an attempt at `deliver`: the code it calls (delivery target, modifier)
+                        -- panics somewhere in Start/AddRcpt/Body/Commit; the stack unwinds into the deferred function
   | tickTimer
   | tickUpd (i : Nat)
   | tickStop
@@ -213,6 +219,17 @@ def stepThr (v : Variant) (s : St) (i choice : Nat) : Option St :=
     | .done => none
     | .panicked => none
 
+/-- The delivery attempt of goroutine `i` panics (a fault of the code the queue calls, with panic
+recovery active: `dontRecover = false`, the production default).  Nothing was decided: no retry, no
+removal; the deferred function of `Queue.dispatch`'s goroutine runs next, entered by the panic. -/
+def stepThrPanic (s : St) (i : Nat) : Option St :=
+  match s.thr[i]? with
+  | none => none
+  | some t =>
+    match t.pc with
+    | .deliver => some { s with tpanic := t.slot.msg :: s.tpanic, thr := s.thr.set i { t with pc := .panicRelease } }
+    | _ => none
+
 def stepTick (s : St) : Option St :=
   match s.tick with
   | .top => some { s with tickNow := s.now, tick := .scanLock }
@@ -290,6 +307,7 @@ def stepCloser (s : St) : Option St :=
 
 def step (v : Variant) (s : St) : Who → Option St
   | .thr i c => stepThr v s i c
+  | .thrPanic i => stepThrPanic s i
   | .closer => stepCloser s
   | .tick => stepTick s
   | .tickBad => stepTickBad s
@@ -320,6 +338,6 @@ def init (cap : Nat) (prods : List (Nat × Nat)) (withClose : Bool) : St :=
     closer := if withClose then some .setStopped else none,
     tick := .top, tickNow := 0, wg := 0, semCap := cap, semHeld := 0,
     nextReq := prods.length, crashed := false,
-    pushed := [], dispatched := [], broken := [], removed := [] }
+    pushed := [], dispatched := [], broken := [], removed := [], tpanic := [] }
 
 end MaddyVerif.TimeWheel
